@@ -211,7 +211,7 @@ def real_oracle(run):
             run.oracle_ok("probabilistic")
 
 
-def seq_oracle(run):
+def seq_oracle(run, drv=None):
     """ProbabilisticTensorDictSequential: deterministic part + probabilistic head. get_dist / log_prob / forward agree with
     a distribution built by hand from the parameters the deterministic part computes; other entries untouched."""
     from tensordict import TensorDict
@@ -292,10 +292,10 @@ def seq_oracle(run):
         else:
             run.oracle_ok("probabilistic")
 
-    composite_oracle(run)
+    composite_oracle(run, drv)
 
 
-def composite_oracle(run):
+def composite_oracle(run, drv=None):
     """CompositeDistribution heads (a Normal and an Independent(Normal)): for composite_lp_aggregate on/off x num_samples None/k x every
     interaction type, the log-probabilities the module writes equal (shape and value) both `module.get_dist(params).log_prob(sample)`
     and the plain torch distributions built from the same parameters; samples have the advertised shape and the named statistic."""
@@ -305,17 +305,19 @@ def composite_oracle(run):
 
     def indep_normal(loc, scale):
         return D.Independent(D.Normal(loc, scale), 1)
-    for second, agg, ns, it in itertools.product(["indep_normal", "categorical"], [True, False], [None, 4], list(InteractionType)):
+    from common import parse_sx
+    for second, agg, ns, it in itertools.product(["indep_normal", "categorical", "normal_feature"], [True, False], [None, 4], list(InteractionType)):
         case = ["composite", second, "aggregate" if agg else "per-key", ns, str(it)]
         run.case(("composite", second, agg, ns, str(it)))
         torch.manual_seed(4)
         td = TensorDict({"params": {"x": {"loc": torch.randn(3), "scale": torch.rand(3) + 0.5},
-                                    "y": ({"loc": torch.randn(3, 2), "scale": torch.rand(3, 2) + 0.5} if second == "indep_normal"
+                                    "y": ({"loc": torch.randn(3, 2), "scale": torch.rand(3, 2) + 0.5} if second != "categorical"
                                           else {"logits": torch.randn(3, 5)})},
                          "other": torch.arange(3.0)}, [3])
         p = td["params"]
-        ydist = indep_normal if second == "indep_normal" else D.Categorical
-        yshape = (3, 2) if second == "indep_normal" else (3,)
+        ydist = {"indep_normal": indep_normal, "categorical": D.Categorical, "normal_feature": D.Normal}[second]
+        yshape = (3,) if second == "categorical" else (3, 2)
+        yextra = [2] if second == "normal_feature" else []      # feature dims the head's log_prob does not reduce itself
         bad = []
         try:
             with warnings.catch_warnings():
@@ -341,15 +343,16 @@ def composite_oracle(run):
             bad.append(f"sample shapes {tuple(out['x'].shape)}, {tuple(out['y'].shape)}")
         else:
             lx = D.Normal(p["x", "loc"], p["x", "scale"]).log_prob(out["x"])
-            if second == "indep_normal":
-                ly = D.Normal(p["y", "loc"], p["y", "scale"]).log_prob(out["y"]).sum(-1)
+            if second != "categorical":
+                ly_full = D.Normal(p["y", "loc"], p["y", "scale"]).log_prob(out["y"])
+                ly = ly_full.sum(-1)
                 ymode = p["y", "loc"]
             else:
                 ly = D.Categorical(logits=p["y", "logits"]).log_prob(out["y"])
                 ymode = p["y", "logits"].argmax(-1)
             if it == InteractionType.MODE and not (torch.allclose(out["x"], p["x", "loc"]) and torch.equal(out["y"].to(ymode.dtype), ymode)):
                 bad.append("mode is not the mode of the heads")
-            if it == InteractionType.MEAN and second == "indep_normal" and not (torch.allclose(out["x"], p["x", "loc"]) and torch.allclose(out["y"], ymode)):
+            if it == InteractionType.MEAN and second != "categorical" and not (torch.allclose(out["x"], p["x", "loc"]) and torch.allclose(out["y"], ymode)):
                 bad.append("mean is not the mean of the heads")
             if agg:
                 want = lx + ly
@@ -360,7 +363,7 @@ def composite_oracle(run):
                     bad.append(f"get_dist(params).log_prob(sample): shape {tuple(lp_dist.shape) if isinstance(lp_dist, torch.Tensor) else type(lp_dist).__name__} "
                                f"vs the module's {tuple(want.shape)} / values")
             else:
-                for name, want in (("x", lx), ("y", ly)):
+                for name, want in (("x", lx), ("y", ly_full if second == "normal_feature" else ly)):
                     keys = [k for k in out.keys(True, True) if "log_prob" in str(k) and name in str(k)]
                     if not keys:
                         bad.append(f"no log-prob entry for head {name}")
@@ -371,6 +374,18 @@ def composite_oracle(run):
                     dgot = lp_dist.get(keys[0], None) if not isinstance(lp_dist, torch.Tensor) else None
                     if dgot is None or dgot.shape != want.shape or not torch.allclose(dgot, want):
                         bad.append(f"get_dist(params).log_prob(sample)[{keys[0]}] differs from the module's entry")
+        if drv is not None and not bad:
+            sb = list(out.batch_size)
+            ans = parse_sx(drv.ask(f"(c14.lp_shape ({' '.join(map(str, sb))}) (() ({' '.join(map(str, yextra))})))"))
+            if agg:
+                impl_shapes = [list(lp_dist.shape), list(out.get(mod.log_prob_key).shape)]
+                model_shapes = [ans[0] if isinstance(ans[0], list) else [], ans[1] if isinstance(ans[1], list) else []]
+            else:
+                kx = [k for k in out.keys(True, True) if "log_prob" in str(k) and "x" in str(k)][0]
+                ky = [k for k in out.keys(True, True) if "log_prob" in str(k) and "y" in str(k)][0]
+                impl_shapes = [list(out.get(kx).shape), list(out.get(ky).shape)]
+                model_shapes = [list(x) if isinstance(x, list) else [] for x in ans[2]]
+            run.corr("log_prob_shapes", case, impl_shapes, model_shapes)
         if not torch.equal(out["other"] if ns is None or it != InteractionType.RANDOM else out["other"][0], td["other"]):
             bad.append("an unrelated entry changed")
         if bad:
@@ -416,5 +431,5 @@ def context_oracle(run):
 def run_prob(run, drv, ask):
     decision_stream(run, drv, ask)
     real_oracle(run)
-    seq_oracle(run)
+    seq_oracle(run, drv)
     context_oracle(run)
